@@ -262,7 +262,7 @@ PROPS["C17"] = {
 
 PROPS["C01"] = {
     "theorems": ["C01_roundtrip", "C01_archive_records_source", "C01_input_delivery_irrelevant", "C01_roundtrip_over_http"],
-    "suites": ["clirt", "compress", "conform"], "needs_cli": True,
+    "suites": ["clirt", "compress", "conform", "clihuge"], "needs_cli": True,
     "rule": "cases: generated sources (empty, 1 byte, shorter than window/min chunk, around min/max, duplicate heavy, > 1 MiB) x "
             "valid configurations (three chunkers, hash length 4..64, none/brotli/zstd/lzma at their levels, buffered-chunks 1..64) through "
             "`bita compress` then `bita clone` locally and over http and `bita info`; library writer + reader; every archive also "
